@@ -1,7 +1,9 @@
 (** Model of cert/store.go ([certstore.BuildNameToCertificate], [getCertificate],
     the atomic store) and of cert/watch.go (the reload loop), after the repair of the
-    reload loop (fix: commit in /repo: sleep after a failed certificate build); the old
-    loop is kept as [watch_step_spinning] for the refutation theorem.
+    reload loop (fix: commit in /repo: sleep after a failed certificate build) and of the
+    index (fix: commit: certificate names are lower-cased when indexed); the old loop and
+    the old index are kept as [watch_step_spinning] / [build_from_unfolded] for the
+    refutation theorems.
     A certificate is abstracted to the list of names BuildNameToCertificate indexes it
     under: the CommonName when non-empty, then the DNS SANs, in that order. *)
 From Coq Require Import String List NArith Bool.
@@ -23,12 +25,20 @@ Fixpoint lookup_last (ix : index) (n : str) : option nat :=
                    end
   end.
 
+(* BuildNameToCertificate after the repair (fix: commit in /repo): names are indexed
+   lower-cased, as DNS names compare *)
 Fixpoint build_from (i : nat) (certs : list cert) : index :=
   match certs with
   | [] => []
-  | c :: r => map (fun n => (n, i)) c ++ build_from (S i) r
+  | c :: r => map (fun n => (lower n, i)) c ++ build_from (S i) r
   end.
 Definition build_index (certs : list cert) : index := build_from 0 certs.
+(* as it was: the certificate's spelling is the key, while requests are lower-cased *)
+Fixpoint build_from_unfolded (i : nat) (certs : list cert) : index :=
+  match certs with
+  | [] => []
+  | c :: r => map (fun n => (n, i)) c ++ build_from_unfolded (S i) r
+  end.
 
 (* strings.ToLower, then strip every trailing '.' *)
 Fixpoint strip_dots_rev (r : str) : str :=
